@@ -6,7 +6,14 @@ import (
 	"strings"
 )
 
+var loadedP *Program
+var loadedV *Verifier
+
+// loadAll loads the tree under test once per process (a run over several properties shares the SSA and the contracts).
 func loadAll() (*Program, *Verifier) {
+	if loadedP != nil {
+		return loadedP, loadedV
+	}
 	P, err := loadProgram()
 	if err != nil {
 		fmt.Fprintln(os.Stderr, "govc: engine error:", err)
@@ -21,7 +28,8 @@ func loadAll() (*Program, *Verifier) {
 		fmt.Fprintln(os.Stderr, "govc: engine error:", err)
 		os.Exit(2)
 	}
-	return P, newVerifier(P, sp)
+	loadedP, loadedV = P, newVerifier(P, sp)
+	return loadedP, loadedV
 }
 
 func main() {
